@@ -311,11 +311,13 @@ def compare_run(model: str, impl_: str, want=('stack', 'cache', 'ret', 'plog', '
     m, i = fields(model), fields(impl_)
     ms, is_ = m['status'], i['status']
     ok_m, ok_i = ms == 'OK', is_ == 'OK'
+    if m.get('taint') == '1':
+        # the script read the *text* of an exception message (cache[b'E']), which the model does not carry: from that point on
+        # the two runs may legitimately differ (e.g. the real message is longer than stack_max_item_size) - not comparable
+        return True, False, 'tainted'
     if ok_m != ok_i:
         return False, False, 'status'
     soft = (not ok_m) and ms != is_
-    if m.get('taint') == '1':
-        return True, soft, 'tainted'
     m['cache'] = canon_E(m.get('cache', '-'))
     for k in want:
         if k == 'cnt' and not ok_m:
@@ -330,6 +332,8 @@ def compare_run(model: str, impl_: str, want=('stack', 'cache', 'ret', 'plog', '
 def compare_auth(model: str, impl_: str):
     mv, mrest = model.split(' ', 1)
     iv, irest = impl_.split(' ', 1)
+    if fields(mrest).get('taint') == '1':
+        return True, ''          # see compare_run: the script read an exception message text
     if mv != iv:
         return False, 'verdict'
     m, i = fields(mrest), fields(irest)
